@@ -35,6 +35,9 @@ def urls_from_text(string):
                 if URL_WITH_PROTOCOL_RE.match(remainder):
                     yield remainder
 
+        # NOTE: the pattern takes some non-ASCII whitespace for letters
+        url = url.strip()
+
         # NOTE: a markdown link can have an empty target, e.g. "[url]()"
         if not url:
             continue
@@ -49,7 +52,7 @@ def urls_from_text(string):
             i -= 1
 
         if i != stop:
-            url = url[: i + 1]
+            url = url[: i + 1].rstrip()
 
         # NOTE: what remains of a markdown link's target, or of a match whose
         # punctuation was trimmed, is not always a url anymore
